@@ -937,7 +937,13 @@ class Interp:
             if lb == hb:
                 return a.form.scale(lb)
             cands = [la * lb, la * hb, ha * lb, ha * hb]
-            s = SYMTAB.opaque('mul', (a.form.key(), b.form.key()), min(cands), max(cands))
+            tlo, thi = self.irange(ty)
+            big = max(abs(tlo), abs(thi)) ** 2
+            s = SYMTAB.opaque('mul', (a.form.key(), b.form.key()), -big, big)
+            if min(cands) > n.slo(s):
+                n.lo[s] = min(cands)
+            if max(cands) < n.shi(s):
+                n.hi[s] = max(cands)
             return Form.sym(s)
         if op in ('Div', 'Rem'):
             lb, hb = n.rng(b.form)
@@ -956,8 +962,9 @@ class Interp:
                     # every value of the dividend is a multiple of c: the division is exact
                     qf = Form(a.form.c // c, tuple((s_, k // c) for s_, k in a.form.terms))
                     return qf if op == 'Div' else Form.const(0)
-                la, ha = n.rng(a.form)
-                q = SYMTAB.div(a.form, c, tdiv(la, c), tdiv(ha, c))
+                la, ha = n.rng2(a.form)
+                tlo, thi = self.irange(ty)
+                q = SYMTAB.div(a.form, c, tdiv(tlo, c) - 1, tdiv(thi, c) + 1)
                 if tdiv(la, c) > n.slo(q):
                     n.lo[q] = tdiv(la, c)
                 if tdiv(ha, c) < n.shi(q):
@@ -968,11 +975,19 @@ class Interp:
                 return a.form.sub(Form.sym(q, c))
             la, ha = n.rng(a.form)
             m = max(abs(la), abs(ha))
+            tlo, thi = self.irange(ty)
+            big = max(abs(tlo), abs(thi))
             if op == 'Div':
-                s = SYMTAB.opaque('divv', (a.form.key(), b.form.key()), -m, m)
+                s = SYMTAB.opaque('divv', (a.form.key(), b.form.key()), -big, big)
+                bound = m
             else:
                 mb = max(abs(lb), abs(hb))
-                s = SYMTAB.opaque('remv', (a.form.key(), b.form.key()), -min(m, mb), min(m, mb))
+                s = SYMTAB.opaque('remv', (a.form.key(), b.form.key()), -big, big)
+                bound = min(m, mb)
+            if -bound > n.slo(s):
+                n.lo[s] = -bound
+            if bound < n.shi(s):
+                n.hi[s] = bound
             return Form.sym(s)
         return None
 
